@@ -209,6 +209,11 @@ OPS = {
     "refresh": (lambda s: s.refresh(), _ident, None),
     "copy": ("copy", _ident, None),
     "add_abs_note": (_add_abs_note, lambda ev, d: (ev + [_E(6, "note_on", 0, 72, 50), _E(18, "note_off", 0, 72)], max(d, 18)), "abs"),
+    # a signature that restates the one in force (contents 1 and 2 hold 4/4 and G): normalising removes it again
+    "add_abs_ks_again": (lambda s: s.add_absolute_message(ks(12, "G")),
+                         lambda ev, d: (ev + [_E(12, "key_signature", 0, k="G")], max(d, 12)), "abs"),
+    "add_abs_ts_again": (lambda s: s.add_absolute_message(ts(12, 4, 4)),
+                         lambda ev, d: (ev + [_E(12, "time_signature", 0, n=4, dd=4)], max(d, 12)), "abs"),
     "add_rel_wait": (lambda s: s.add_relative_message(wait(6)), lambda ev, d: (ev, d + 6), "rel"),
     "add_rel_ts0": (lambda s: s.add_relative_message(ts(None, 3, 4), index=0), lambda ev, d: (ev + [_E(0, "time_signature", 0, n=3, dd=4)], d), "rel"),
     "add_rel_note": (_add_rel_note, lambda ev, d: (ev + [_E(d, "note_on", 0, 75, 41), _E(d + 3, "note_off", 0, 75)], d + 3), "rel"),
